@@ -17,3 +17,37 @@ impl SourceMapBuilder {
         ensures final(self).entries@ == old(self).entries@.push(SmEntry { dst_line, dst_col, src_line, src_col, source: ostr(source), name: ostr(name) }),
     { unimplemented!() }
 }
+/// decimal digits of n, most significant first
+pub open spec fn dec_digits(n: nat) -> Seq<char>
+    decreases n,
+{
+    if n < 10 { seq![(('0' as u8) + (n as u8)) as char] } else { dec_digits(n / 10).push((('0' as u8) + ((n % 10) as u8)) as char) }
+}
+/// `format!("_${}", i)`
+#[verifier::external_body]
+pub fn vx_fmt_mangled(i: usize) -> (r: String)
+    ensures r@ == seq!['_', '$'] + dec_digits(i as nat),
+{ unimplemented!() }
+/// String -> CompactString (`.into()`)
+#[verifier::external_body]
+pub fn vx_into_compact(s: String) -> (r: CompactString)
+    ensures r@ == s@,
+{ unimplemented!() }
+impl Clone for CompactString {
+    #[verifier::external_body]
+    fn clone(&self) -> (r: Self)
+        ensures r@ == self@,
+    { unimplemented!() }
+}
+impl CompactString {
+    #[verifier::external_body]
+    pub fn as_str(&self) -> (r: &str)
+        ensures r@ == self@,
+    { unimplemented!() }
+}
+/// escape.rs escape_html_quote (regex based; uninterpreted here)
+pub uninterp spec fn esc_quote(s: Seq<char>) -> Seq<char>;
+#[verifier::external_body]
+pub fn escape_html_quote(s: &str) -> (r: String)
+    ensures r@ == esc_quote(s@),
+{ unimplemented!() }
